@@ -385,6 +385,8 @@ func checkC06(w *World, r *Report) {
 	scannerConfigRule(w, r, "C06.token-rules")
 	printedTextNotFormatRule(w, r, "C06.text-not-format")
 	readStringTotalRule(w, r, "C06.read-string-total")
+	scannerOnlyRule(w, r, "C06.scanner-only")
+	tokenBlindRule(w, r, "C06.token-blind")
 	// what the printer writes as two values is read as two: the value an atom reads as depends on its one token
 	leafReaderRule(w, r, "C06.one-token")
 	literalTableRule(w, r, e, "C06.literals")
@@ -992,6 +994,7 @@ func checkC16(w *World, r *Report) {
 	replAccumulateRule(w, r, multi, "C16.repl-reset")
 	leafReaderRule(w, r, "C16.one-token")
 	peekNextRule(w, r, "C16.peek-next")
+	inputFilterRule(w, r, "C16.input-filter")
 	// what a text is classified as depends on the text alone: the reader keeps nothing between (or across) reads
 	r.rule("C16.read-stateless", "reading assigns no package-level variable (no buffer, cache or counter carried from one read to the next or shared by two reads in progress): whether a text is complete, incomplete or malformed is decided from that text alone (shared with C17.read-stateless)")
 	// (the read-string builtin, through which load-file reads, is an entry point of the reader too: a text that was
@@ -1277,8 +1280,25 @@ func checkC16(w *World, r *Report) {
 					if !ok || (bo.Op != token.EQL && bo.Op != token.NEQ) || !isNilConst(bo.Y) {
 						continue
 					}
-					pc, ok := bo.X.(*ssa.Call)
-					if !ok || !w.isTokenPeek(pc.Call.StaticCallee()) {
+					// the result of a peek, or the loop variable that holds the peek of every lap
+					var pblock *ssa.BasicBlock
+					ppos := token.NoPos
+					switch x := bo.X.(type) {
+					case *ssa.Call:
+						if w.isTokenPeek(x.Call.StaticCallee()) {
+							pblock, ppos = x.Block(), x.Pos()
+						}
+					case *ssa.Phi:
+						all := len(x.Edges) > 0
+						for _, ed := range x.Edges {
+							c, isCall := ed.(*ssa.Call)
+							all = all && isCall && w.isTokenPeek(c.Call.StaticCallee())
+						}
+						if all {
+							pblock = x.Block()
+						}
+					}
+					if pblock == nil {
 						continue
 					}
 					idx := 0
@@ -1293,7 +1313,7 @@ func checkC16(w *World, r *Report) {
 					for d := rb; d != nil && clean; d = d.Idom() {
 						for _, in := range d.Instrs {
 							if c, ok := in.(*ssa.Call); ok {
-								if d == pc.Block() && c.Pos() <= pc.Pos() {
+								if d == pblock && ppos.IsValid() && c.Pos() <= ppos {
 									continue
 								}
 								if sc := c.Call.StaticCallee(); sc != nil && (isReaderFn(sc) || w.isTokenNext(sc)) {
@@ -1301,7 +1321,7 @@ func checkC16(w *World, r *Report) {
 								}
 							}
 						}
-						if d == pc.Block() {
+						if d == pblock {
 							break
 						}
 					}
@@ -1650,6 +1670,7 @@ func checkC15(w *World, r *Report) {
 	textVerdictRule(w, r, "C15.text-verdict")
 	printEntryRule(w, r, "C15.print-entry")
 	preambleValueVerbatimRule(w, r, "C15.value-verbatim")
+	preambleEntryReadRule(w, r, "C15.entry-read")
 	// keyword values (and keys) travel as printed text: the printer's form of a keyword is the one text the reader
 	// turns back into that keyword, whatever characters the name holds
 	r.include("C15.keyword-", "C06.", "a keyword is printed as the keyword character followed by its name with exactly the leading marker stripped", checkC06, func(rule string) bool {
